@@ -221,3 +221,8 @@ def run(prog, chk):
     n6 = memrules.shell_free_with_fields(prog, r6, fam, may_fail | set(memrules.ALLOCS))
     if n6 < 3:
         raise Broken("only %d field-store / shell-free pairs found in %s" % (n6, fam))
+
+    r7 = chk.rule("R7-realloc-result-to-temporary", "no `p = realloc(p, n)`: a failed re-allocation must leave the old block reachable and "
+                  "the owning object unchanged", primary=False, floor=3)
+    if memrules.realloc_self_assign(prog, r7) < 3:
+        raise Broken("fewer than 3 realloc sites found")
